@@ -161,6 +161,25 @@ def interToJson (I : Inter) : Json :=
   let kv := match I.feedbacks with | some _ => kv ++ [("obs_feedbacks", obsToJson (obsFeedbacks I))] | none => kv
   obj kv
 
+/-- the batched call protocol on the final (batched) state: per batch and target, what the batched function answers for the
+i-th action of every member (only when every member has the same number of actions and a functional target) -/
+def batchObsJson (S : State) : Json :=
+  match S.sizes with
+  | none => Json.null
+  | some sizes =>
+    ofList (fun (batch : List Inter) =>
+      let per := fun (get : Inter → Option Rew) =>
+        match batch with
+        | [] => Json.null
+        | b0 :: _ =>
+          let n := (b0.actions.getD []).length
+          if batch.all (fun I => (I.actions.getD []).length == n && (match get I with | some r => r.isCallable | none => false)) then
+            ofList (fun i => match batchObs get batch i with
+                             | some col => obsToJson (some col)
+                             | none => Json.null) (List.range n)
+          else Json.null
+      obj [("rewards", per (·.rewards)), ("feedbacks", per (·.feedbacks))]) (cutBatches sizes S.stream)
+
 /-- request `{"stream":[…], "chain":[…], "cfg":{…}}` → the model's final stream (the same
 observables the harness extracts from the real pipeline), `hyp` (the hypotheses of
 `chain_aligned` hold for this case) and `spec` (the model's output is aligned with its input). -/
@@ -173,7 +192,8 @@ def handle (req : Json) : Except String Json := do
                 ("flatten", Json.bool (flattenShapeB rows)),
                 ("denseOnly", ofList (fun a => Json.bool (denseOnly a)) rows),
                 ("wf", ofList (fun a => Json.bool (wfNoLazy a)) rows),
-                ("distinct", Json.bool (distinctB rows))]
+                ("distinct", Json.bool (distinctB rows)),
+                ("pairwiseNe", Json.bool (pairwiseNeB rows))]
   let stream ← (← arr (← field req "stream")).mapM parseInter
   -- op "table": the look-up table a Densify object holds after it has filtered `stream` (having been asked for `prior` before)
   if (match req.getObjVal? "op" with | .ok (Json.str "table") => true | _ => false) then
@@ -198,7 +218,8 @@ def handle (req : Json) : Except String Json := do
   | .error e => pure (obj [("model", obj [("error", Json.str (errName e))]), ("hyp", Json.bool hyp), ("spec", Json.bool true)])
   | .ok S =>
     pure (obj [("model", obj [("stream", ofList interToJson S.stream),
-                              ("sizes", match S.sizes with | some l => ofList ofNat l | none => Json.null)]),
+                              ("sizes", match S.sizes with | some l => ofList ofNat l | none => Json.null),
+                              ("batch_obs", batchObsJson S)]),
                ("hyp", Json.bool hyp),
                ("spec", Json.bool (alignedStreamB stream S.stream))])
 
